@@ -24,13 +24,53 @@ RULE = ("lines of 1-7 ordinates k/8 on increasing half-integer thresholds: non-d
         "(scattered, whole line, or placed so that every decrease sits across a NaN gap and no neighbouring pair decreases anywhere in the array; each "
         "such line also as an array of its own), 0-2 extra dimensions stored in shuffled order with the threshold dimension anywhere; new thresholds inside/outside/"
         "duplicating the grid; 4 fill methods x min_nonnan 0-4; tolerances 0, k/8 and exactly the total decrease; observations on/between/outside "
-        "thresholds or NaN; a case is distinct by the hash of function + inputs and non-trivial when the function returns a value")
-ASSUMPTIONS = ["thresholds and observations are finite or NaN", "round_values is checked for dyadic precisions whose multiples have at most 7 decimals"]
+        "thresholds or NaN (+-inf for observed_cdf / round_values); thresholds moved to base + scale * x (1e6, 101325 at 1/16, ...) in 30 % of the fill / "
+        "add_thresholds / adjust calls; observations lacking a forecast dimension in 30 % of the adjust calls; Datasets of 2-3 variables with different "
+        "NaN positions for propagate_nan; a case is distinct by the hash of function + inputs and non-trivial when the function returns a value")
+ASSUMPTIONS = ["thresholds are finite; observations passed to adjust_fcst_for_crps are finite or NaN (an infinite one is only checked through the relation "
+               "'treated as a missing observation', known finding adjust-infinite-observation); observed_cdf and round_values are checked with +-inf too",
+               "round_values is checked for dyadic precisions whose multiples have at most 7 decimals"]
 TRUSTED = ["hand model of np.fmax.accumulate / np.flip / interpolate_na / ffill / bfill / idxmax / combine_first in coq/model/Cdf.v (validated by correspondence)"]
+
+# counters every complete run must have incremented (core.run_check reports the ones that did not): one per predicate family / input class
+EXPECT_COUNTS = ["envelope", "envelope:line_alone", "envelope:decrease_across_nan_gap_only", "envelope:neighbouring_and_across_nan_gap",
+                 "envelope:neighbouring_decrease", "envelope:no_decrease", "probe:envelope_decrease_across_nan_gap",
+                 "fill:linear", "fill:step", "fill:forward", "fill:backward", "fill:cubic", "fill:error_path", "fill:thresholds_far_from_zero",
+                 "add_thresholds:linear", "add_thresholds:step", "add_thresholds:forward", "add_thresholds:backward", "add_thresholds:none",
+                 "add_thresholds:error_path", "add_thresholds:thresholds_far_from_zero",
+                 "decreasing", "decreasing:error_path", "probe:decreasing_boundary",
+                 "propagate_nan", "propagate_nan:dataset", "observed_cdf", "observed_cdf:include_obs:precision", "observed_cdf:include_obs:no_rounding",
+                 "observed_cdf:given_thresholds_only:precision", "observed_cdf:given_thresholds_only:no_rounding", "observed_cdf:infinite_obs",
+                 "observed_cdf:error_path", "observed_cdf:integer_storage", "probe:observed_cdf_options", "probe:all_nan_array", "round_values", "round_values:infinite", "round_values:error_path", "probe:precision_zero",
+                 "adjust:some_decreasing", "adjust:none_decreasing", "adjust:chosen_original", "adjust:chosen_upper", "adjust:chosen_lower",
+                 "adjust:never_flatters_checked", "adjust:tie_corpus", "adjust:error_path", "adjust:obs_lacks_fcst_dim", "adjust:thresholds_far_from_zero",
+                 "adjust:inf_obs_as_missing", "adjust:tolerated_dip_next_to_flagged", "probe:adjust_tolerated_next_to_flagged", "probe:adjust_boundary", "probe:adjust_dense_additional_thresholds", "probe:adjust_obs_lacks_fcst_dim",
+                 "sweep_lines"]
 
 TD = "thr"
 NAN = float("nan")
+INF = float("inf")
 FILLS = ["linear", "step", "forward", "backward"]
+# (base, scale): thresholds x (half-integers near zero) become base + scale * x -- far from zero relative to their spacing
+AFFINE = [(1e6, 2.0), (1e6, 1.0), (-2e6, 4.0), (101325.0, 0.125), (273.0, 0.03125), (0.0, 2.0 ** -10)]
+
+
+def pick_tr(rng, p=0.3):
+    return rng.choice(AFFINE) if rng.random() < p else None
+
+
+def mv(x, tr):
+    """a threshold-like value (given near zero) moved by the transform"""
+    return x if tr is None else float(tr[0] + tr[1] * x)
+
+
+def thr_values(ths, tr=None):
+    """the actual thresholds of a generated array: half units, moved by the transform"""
+    return [mv(t / 2.0, tr) for t in ths]
+
+
+def moved(da, ths, tr):
+    return da if tr is None else da.assign_coords({TD: [mv(float(x), tr) for x in da[TD].values]})
 
 
 def C():
@@ -300,7 +340,7 @@ def check_envelope(ctx, da=None, sizes=None, alone=None):
             break
 
 
-def check_fill(ctx, da=None, sizes=None, ths=None, method=None, mn=None):
+def check_fill(ctx, da=None, sizes=None, ths=None, method=None, mn=None, tr=None):
     rng = ctx.rng
     if da is None:
         da, sizes, ths = gen_array(rng, nan_mode=rng.choice(["scatter", "scatter", "none", "line"]))
@@ -309,10 +349,15 @@ def check_fill(ctx, da=None, sizes=None, ths=None, method=None, mn=None):
         if rng.random() < 0.08:
             da = da.copy()
             da.values[tuple(rng.randrange(s) for s in da.shape)] = rng.choice([-0.125, 1.25])
+        tr = pick_tr(rng)
+    da = moved(da, ths, tr)
+    txs = thr_values(ths, tr)
+    if tr is not None:
+        ctx.count("fill:thresholds_far_from_zero")
     desc = {"fn": "fill_cdf", "cdf": gens.da_repr(da), "method": method, "min_nonnan": mn}
     impl = core.call_impl(C().fill_cdf, da, TD, method, mn)
     dims, labs, lines = lines_of(da, sizes)
-    m = mcall(ctx, "c17_fill", enc_list([enc_nums([t / 2.0 for t in ths]), enc_lines(lines), enc_str(method), str(mn)]))
+    m = mcall(ctx, "c17_fill", enc_list([enc_nums(txs), enc_lines(lines), enc_str(method), str(mn)]))
     ctx.case(desc, nontrivial=impl[0] == "ok")
     if da.sizes[TD] >= 3 and len(ctx.samples) >= 3:
         ctx.sample(desc, limit=5)
@@ -329,7 +374,7 @@ def check_fill(ctx, da=None, sizes=None, ths=None, method=None, mn=None):
             ctx.tie_fail("fill_cdf raises/returns differently from the model", desc, str(impl[1])[:200], str(m)[:200])
         return
     _, _, got = lines_of(impl[1], sizes)
-    xs = [Fraction(t, 2) for t in ths]
+    xs = [Fraction(x) for x in txs]
     for lb, o, g in zip(labs, lines, got):
         want = oracle_fill(xs, [F(v) for v in o], method, mn)
         if not same_line(g, want):
@@ -348,31 +393,45 @@ def check_fill(ctx, da=None, sizes=None, ths=None, method=None, mn=None):
         ctx.tie_fail("fill_cdf differs from the model", {**desc, "case": bad[0]}, bad[1], bad[2])
 
 
-def check_add_thresholds(ctx):
+def check_add_thresholds(ctx, given=None):
     rng = ctx.rng
-    da, sizes, ths = gen_array(rng, nan_mode=rng.choice(["none", "scatter", "line"]), nmin=2)
-    method = rng.choice(FILLS + ["none"])
-    new = [rng.randint(-4, 44) / 4.0 for _ in range(rng.randint(0, 4))]
-    if rng.random() < 0.3 and ths:
-        new.append(rng.choice(ths) / 2.0)
-    if rng.random() < 0.1:
-        new.append(NAN)
-    mn = rng.choice([1, 2, 2, 3])
+    if given is not None:
+        da, sizes, ths, new, method, mn = given
+        tr = None
+    else:
+        da, sizes, ths = gen_array(rng, nan_mode=rng.choice(["none", "scatter", "line"]), nmin=2)
+        method = rng.choice(FILLS + ["none"])
+        new = [rng.randint(-4, 44) / 4.0 for _ in range(rng.randint(0, 4))]
+        if rng.random() < 0.3 and ths:
+            new.append(rng.choice(ths) / 2.0)
+        if rng.random() < 0.15:      # far outside the given thresholds (linear: extended first / last segment, clipped)
+            new.append(rng.choice([-1, 1]) * float(2 ** rng.randint(6, 20)))
+        tr = pick_tr(rng)
+        new = [mv(x, tr) for x in new]
+        if rng.random() < 0.1:
+            new.append(NAN)
+        mn = rng.choice([1, 2, 2, 3])
+    da = moved(da, ths, tr)
+    txs = thr_values(ths, tr)
     desc = {"fn": "add_thresholds", "cdf": gens.da_repr(da), "new_thresholds": new, "fill_method": method, "min_nonnan": mn}
     impl = core.call_impl(C().add_thresholds, da, TD, new, method, min_nonnan=mn)
     dims, labs, lines = lines_of(da, sizes)
-    m = mcall(ctx, "c17_add_thresholds", enc_list([enc_nums([t / 2.0 for t in ths]), enc_lines(lines), enc_nums(new), enc_str(method), str(mn)]))
+    m = mcall(ctx, "c17_add_thresholds", enc_list([enc_nums(txs), enc_lines(lines), enc_nums(new), enc_str(method), str(mn)]))
     ctx.case(desc, nontrivial=impl[0] == "ok")
     ctx.count("add_thresholds:" + method)
+    if tr is not None:
+        ctx.count("add_thresholds:thresholds_far_from_zero")
     should_raise = method != "none" and (mn < 2 and method == "linear")
     if impl[0] == "err":
         if not should_raise:
             ctx.violation("add_thresholds raises on a valid input", desc, "a value", impl[1])
+        else:
+            ctx.count("add_thresholds:error_path")
         if m is not NoModel and not (core.is_err(m) and impl[1] == m):
             ctx.tie_fail("add_thresholds raises where the model returns", desc, str(impl[1])[:200], str(m)[:200])
         return
     # predicate: thresholds = sorted union; given ordinates stay at their thresholds; new ones are filled as the method prescribes
-    grid_want = sorted(set([t / 2.0 for t in ths] + [x for x in new if not np.isnan(x)]))
+    grid_want = sorted(set(txs + [x for x in new if not np.isnan(x)]))
     grid_got = [float(x) for x in impl[1][TD].values]
     if grid_got != grid_want:
         ctx.violation("add_thresholds: thresholds are not the sorted union of old and new (NaN dropped)", desc, grid_want, grid_got)
@@ -380,7 +439,7 @@ def check_add_thresholds(ctx):
         _, _, got = lines_of(impl[1], sizes)
         xs = [Fraction(g) for g in grid_want]
         for lb, o, g in zip(labs, lines, got):
-            given = {t / 2.0: F(v) for t, v in zip(ths, o)}
+            given = {x: F(v) for x, v in zip(txs, o)}
             re = [given.get(x) for x in grid_want]
             want = re if method == "none" else oracle_fill(xs, re, method, mn)
             if not same_line(g, want):
@@ -423,6 +482,8 @@ def check_decreasing(ctx, da=None, sizes=None, ths=None, tol=None):
         if not (impl[0] == "err" and should_raise and impl[1] == "err:ValueError"):
             ctx.violation("decreasing_cdfs raises / does not raise ValueError exactly for a negative tolerance or a partly-NaN CDF", desc,
                           "err:ValueError" if should_raise else "a value", impl[1] if impl[0] == "err" else "a value")
+        else:
+            ctx.count("decreasing:error_path")
         if m is not NoModel and not (core.is_err(m) and impl[0] == "err" and impl[1] == m):
             ctx.tie_fail("decreasing_cdfs raises/returns differently from the model", desc, str(impl[1])[:200], str(m)[:200])
         return
@@ -469,45 +530,96 @@ def check_small_tools(ctx):
         bad = cmp_lines(impl[1], sizes, m) if m is not NoModel else None
         if bad:
             ctx.tie_fail("propagate_nan differs from the model", {**desc, "case": bad[0]}, bad[1], bad[2])
+    check_propagate_dataset(ctx, da, sizes)
     check_observed(ctx)
     check_round(ctx)
+
+
+DS_KEY = "propagate-nan-dataset"
+
+
+def check_propagate_dataset(ctx, da, sizes):
+    """propagate_nan is declared for XarrayLike: on a Dataset with several variables whose NaN positions differ, every variable must come
+    back as it does alone as a DataArray (a NaN mask built across variables would couple them)"""
+    rng = ctx.rng
+    names = ["u", "v", "w"][:rng.randint(2, 3)]
+    vs = {}
+    for k, n in enumerate(names):
+        x = da.copy(data=np.array(da.values, copy=True))
+        if k:      # other values and other NaN positions on the same labels
+            vals = np.array([rng.randint(0, 8) / 8.0 for _ in range(x.size)], dtype=float).reshape(x.shape)
+            hole = np.array([rng.random() < rng.choice([0.0, 0.1, 0.3]) for _ in range(x.size)]).reshape(x.shape)
+            x = x.copy(data=np.where(hole, NAN, vals))
+        vs[n] = x
+    ds = xr.Dataset(vs)
+    desc = {"fn": "propagate_nan", "cdf": {n: gens.da_repr(v) for n, v in vs.items()}, "input_type": "Dataset"}
+    impl = core.call_impl(C().propagate_nan, ds, TD)
+    ctx.case(desc)
+    ctx.count("propagate_nan:dataset")
+    if impl[0] != "ok":
+        ctx.violation("propagate_nan raises on a Dataset (its signature declares XarrayLike)", desc, "a Dataset", impl[1], finding_key=DS_KEY)
+        return
+    for n in names:
+        alone = core.call_impl(C().propagate_nan, vs[n], TD)
+        _, labs, want = lines_of(alone[1], sizes)
+        _, _, got = lines_of(impl[1][n], sizes) if n in impl[1] else (None, None, None)
+        if got is None or any(not same_line(g, [F(v) for v in w_]) for g, w_ in zip(got, want)):
+            ctx.violation("propagate_nan on a Dataset: a variable does not come back as it does alone as a DataArray (NaN positions of another "
+                          "variable leak into it)", {**desc, "variable": n}, want, got, finding_key=DS_KEY)
+            return
 
 
 EPS = [4e-8, -4e-8, 1 / 3 * 1e-6, 0.123456789e-2]     # more than 7 decimals
 
 
-def check_observed(ctx, obs_vals=None, tv=None, inc=None, prec=None):
+def check_observed(ctx, obs_vals=None, tv=None, inc=None, prec=None, dtype=None):
     rng = ctx.rng
     c = C()
+    if obs_vals is None and rng.random() < 0.15:      # whole-number observations stored as (unsigned) integers
+        prec = rng.choice([0, 0, 2, 0.5])
+        obs_vals = [float(rng.randint(0, 6)) for _ in range(rng.randint(1, 4))]
+        tv = None if rng.random() < 0.3 else [rng.randint(0, 12) / 2.0 for _ in range(rng.randint(1, 4))]
+        inc = True if tv is None else rng.random() < 0.5
+        dtype = rng.choice([np.uint8, np.uint16, np.int32, np.int64])
     if obs_vals is None:
         n = rng.randint(1, 4)
         prec = rng.choice([0, 0, 0.5, 1, 0.25])
         fine = prec == 0 and rng.random() < 0.5      # without rounding the observations may be any float
         obs_vals = [NAN if rng.random() < 0.15 else rng.randint(0, 16) / 4.0 + (rng.choice(EPS) if fine else 0.0) for _ in range(n)]
+        if rng.random() < 0.2:      # an infinite observation is below / above every finite threshold (and is a threshold itself when included)
+            obs_vals[rng.randrange(n)] = rng.choice([INF, -INF])
         tv = None if rng.random() < 0.3 else [rng.randint(0, 8) / 2.0 + (rng.choice(EPS + [0.0]) if fine else 0.0) for _ in range(rng.randint(1, 4))]
         inc = True if tv is None else rng.random() < 0.5
     n = len(obs_vals)
     sizes = {"a": n}
     obs = xr.DataArray(obs_vals, dims=["a"], coords={"a": list(range(n))})
-    desc = {"fn": "observed_cdf", "obs": gens.da_repr(obs), "threshold_values": tv, "include_obs_in_thresholds": inc, "precision": prec}
+    if dtype is not None:
+        obs = obs.astype(dtype)
+        ctx.count("observed_cdf:integer_storage")
+    desc = {"fn": "observed_cdf", "obs_dtype": str(obs.dtype), "obs": gens.da_repr(obs), "threshold_values": tv, "include_obs_in_thresholds": inc, "precision": prec}
     impl = core.call_impl(c.observed_cdf, obs, TD, threshold_values=tv, include_obs_in_thresholds=inc, precision=prec)
     ctx.case(desc, nontrivial=impl[0] == "ok")
     ctx.count("observed_cdf")
+    ctx.count("observed_cdf:" + ("include_obs" if inc else "given_thresholds_only") + (":precision" if prec > 0 else ":no_rounding"))
+    if any(np.isinf(x) for x in obs_vals):
+        ctx.count("observed_cdf:infinite_obs")
 
     def rnd(x):      # nearest multiple of prec, ties to even (numpy)
-        if prec == 0 or np.isnan(x):
+        if prec == 0 or np.isnan(x) or np.isinf(x):
             return x
         q = Fraction(x) / Fraction(prec)
         fl = q.numerator // q.denominator
         r = q - fl
         k = fl if r < Fraction(1, 2) else (fl + 1 if r > Fraction(1, 2) else (fl if fl % 2 == 0 else fl + 1))
         return float(k * Fraction(prec))
-    ro = [rnd(float(x)) for x in obs.values]
+    ro = [rnd(float(x)) for x in obs_vals]
     grid = sorted(set([x for x in ro if inc and not np.isnan(x)] + [float(x) for x in (tv or [])]))
-    all_nan = bool(np.isnan(obs.values).all())
+    all_nan = all(np.isnan(x) for x in obs_vals)
     if all_nan and tv is None:
         if impl[0] != "err":
             ctx.violation("observed_cdf must raise when there is neither a non-NaN observation nor a threshold value", desc, "err:ValueError", "a value")
+        else:
+            ctx.count("observed_cdf:error_path")
     elif impl[0] != "ok":
         if grid:
             ctx.violation("observed_cdf raises on a valid input", desc, "a value", impl[1])
@@ -521,6 +633,9 @@ def check_observed(ctx, obs_vals=None, tv=None, inc=None, prec=None):
                 if not same_line(g, want):
                     ctx.violation("observed_cdf is not 1{threshold >= observation} (NaN for a NaN observation)", {**desc, "case": {"a": lb[0]}}, [None if w is None else int(w) for w in want], g)
                     break
+            if any(np.isinf(t) for t in grid):      # the model's grid is rational: an infinite threshold is decided by the plain statement above only
+                ctx.count("observed_cdf:infinite_threshold_not_tied")
+                return
             m = mcall(ctx, "c17_observed_cdf", enc_list([enc_nums(ro), enc_nums(grid)]))
             bad = cmp_lines(impl[1], sizes, m) if m is not NoModel else None
             if bad:
@@ -534,19 +649,25 @@ def check_round(ctx, vals=None, p=None):
         p = rng.choice([0, 0, 0.5, 0.25, 2, 1, 0.125, -1])
         fine = p == 0 and rng.random() < 0.7
         vals = [NAN if rng.random() < 0.1 else rng.randint(-64, 64) / 16.0 + (rng.choice(EPS) if fine else 0.0) for _ in range(rng.randint(1, 6))]
+        if rng.random() < 0.25:
+            vals[rng.randrange(len(vals))] = rng.choice([INF, -INF])
     impl = core.call_impl(c.round_values, xr.DataArray(vals, dims=["x"]), p)
     m = mcall(ctx, "c17_round", enc_list([enc_nums(vals), enc_num(p), enc_bool(True)]))
     desc = {"fn": "round_values", "values": vals, "rounding_precision": p}
     ctx.case(desc, nontrivial=impl[0] == "ok")
     ctx.count("round_values")
+    if any(np.isinf(v) for v in vals):
+        ctx.count("round_values:infinite")
     if impl[0] == "err" or p < 0:
         if not (impl[0] == "err" and p < 0):
             ctx.violation("round_values raises / does not raise exactly for a negative precision", desc, "err" if p < 0 else "value", impl[0])
+        else:
+            ctx.count("round_values:error_path")
     else:
         for v, g in zip(vals, impl[1].values):
             if np.isnan(v):
                 good = np.isnan(g)
-            elif p == 0:
+            elif p == 0 or np.isinf(v):
                 good = g == v
             else:
                 good = abs(g - v) <= p / 2 + 1e-12 and abs(g / p - round(g / p)) <= 1e-9
@@ -576,8 +697,12 @@ def check_adjust(ctx, given=None):
     rng = ctx.rng
     if given is not None:
         return _check_adjust(ctx, *given)
-    da, sizes, ths = gen_array(rng, nan_mode=rng.choice(["none", "none", "scatter", "line"]), nmin=2, nmax=6)
+    lack = rng.random() < 0.3      # the observation lacks a forecast dimension: several CDFs are verified against one observation
+    da, sizes, ths = gen_array(rng, nan_mode=rng.choice(["none", "none", "scatter", "line"]), nmin=2, nmax=6, extra=rng.choice([1, 2, 2]) if lack else None)
     odims = {d: sizes[d] for d in sizes if rng.random() < 0.7}
+    big = [d for d in sizes if sizes[d] >= 2]
+    if lack and big and all(d in odims for d in big):
+        odims.pop(rng.choice(big))
     on = int(np.prod([odims[d] for d in odims])) if odims else 1
 
     def ov():
@@ -596,13 +721,55 @@ def check_adjust(ctx, given=None):
     decs = [sum((Fraction(a) - Fraction(b) for a, b in zip(l, l[1:]) if not (np.isnan(a) or np.isnan(b)) and a > b), Fraction(0)) for l in plines]
     r = rng.random()
     tol = 0.0 if r < 0.55 else (float(rng.choice(decs)) if r < 0.8 else rng.randint(0, 4) / 8.0)
+    if rng.random() < 0.05:
+        tol = -0.125
     add = None if rng.random() < 0.6 else [rng.randint(2 * ths[0] - 4, 2 * ths[-1] + 4) / 4.0 for _ in range(rng.randint(1, 3))]
     ffm = rng.choice(FILLS)
     im = rng.choice(["exact", "trapz"])
-    return _check_adjust(ctx, da, sizes, ths, obs, tol, add, ffm, im)
+    tr = pick_tr(rng)
+    if tr is not None:
+        da = moved(da, ths, tr)
+        obs = obs.copy(data=tr[0] + tr[1] * np.asarray(obs.values, dtype=float))
+        add = None if add is None else [mv(x, tr) for x in add]
+    if tol >= 0 and rng.random() < 0.25:
+        adjust_inf_obs(ctx, da, obs, tol, add, ffm, im)
+    return _check_adjust(ctx, da, sizes, ths, obs, tol, add, ffm, im, tr)
 
 
-def _check_adjust(ctx, da, sizes, ths, obs, tol, add, ffm, im):
+ADJ_INF_KEY = "adjust-infinite-observation"
+
+
+def adjust_inf_obs(ctx, da, obs, tol, add, ffm, im):
+    """an infinite observation has no finite CRPS: adjust_fcst_for_crps must treat it like a missing one (that case keeps its original CDF)
+    and must adjust every other case exactly as without it -- relation between two public calls"""
+    import scores.probability as P
+    rng = ctx.rng
+    ov = np.asarray(obs.values, dtype=float)
+    vi, vn = ov.copy().ravel(), ov.copy().ravel()
+    for k in set(rng.sample(range(ov.size), rng.randint(1, max(1, ov.size // 2)))):
+        vi[k], vn[k] = rng.choice([INF, -INF]), NAN
+    oi, on = obs.copy(data=vi.reshape(ov.shape)), obs.copy(data=vn.reshape(ov.shape))
+    kw = dict(decreasing_tolerance=tol, additional_thresholds=add, fcst_fill_method=ffm, integration_method=im)
+    a = core.call_impl(P.adjust_fcst_for_crps, da, TD, oi, **kw)
+    b = core.call_impl(P.adjust_fcst_for_crps, da, TD, on, **kw)
+    desc = {"fn": "adjust_fcst_for_crps", "fcst": gens.da_repr(da), "obs": gens.da_repr(oi), "decreasing_tolerance": tol, "additional_thresholds": add,
+            "fcst_fill_method": ffm, "integration_method": im}
+    ctx.case(("adjust_inf", desc))
+    ctx.count("adjust:inf_obs_as_missing")
+    if b[0] != "ok":
+        return
+    if a[0] != "ok":
+        ctx.violation("adjust_fcst_for_crps raises for an infinite observation (a missing observation at the same place does not)", desc, "a value", a[1],
+                      finding_key=ADJ_INF_KEY)
+        return
+    x, y = xr.broadcast(a[1], b[1])
+    if not np.allclose(np.asarray(x.values, dtype=float), np.asarray(y.values, dtype=float), rtol=0, atol=1e-12, equal_nan=True):
+        ctx.violation("adjust_fcst_for_crps: an infinite observation changes the adjustment of other forecast cases (it must act like a missing "
+                      "observation: its own case keeps the original CDF, every other case is adjusted as without it)", desc,
+                      np.asarray(y.values).tolist(), np.asarray(x.values).tolist(), finding_key=ADJ_INF_KEY)
+
+
+def _check_adjust(ctx, da, sizes, ths, obs, tol, add, ffm, im, tr=None):
     import scores.probability as P
     dims, labs, lines = lines_of(da, sizes)
     plines = [[NAN] * len(l) if any(np.isnan(v) for v in l) else l for l in lines]
@@ -617,15 +784,26 @@ def _check_adjust(ctx, da, sizes, ths, obs, tol, add, ffm, im):
         o = float(obs.sel(sel).values) if sel else float(obs.values)
         obs_of.append(o)
         cases.append(enc_list([enc_nums(l), enc_num(o)]))
-    m = mcall(ctx, "c17_adjust", enc_list([enc_nums([t / 2.0 for t in ths]), enc_list(cases), enc_nums(add or []), enc_str(ffm), enc_str(im), enc_num(tol)]))
+    m = mcall(ctx, "c17_adjust", enc_list([enc_nums(thr_values(ths, tr)), enc_list(cases), enc_nums(add or []), enc_str(ffm), enc_str(im), enc_num(tol)]))
     flagged = [d > Fraction(tol) for d in decs]
     if any(flagged):
         ctx.sample(desc, limit=3)
     ctx.case(desc, nontrivial=impl[0] == "ok" and any(flagged))
     ctx.count("adjust:" + ("some_decreasing" if any(flagged) else "none_decreasing"))
-    if impl[0] == "err":
-        if m is not NoModel and not (core.is_err(m) and impl[1] == m):
-            ctx.tie_fail("adjust_fcst_for_crps raises where the model returns a value", desc, str(impl[1])[:200], str(m)[:200])
+    if tr is not None:
+        ctx.count("adjust:thresholds_far_from_zero")
+    if any(sizes[d] >= 2 and d not in obs.dims for d in sizes):
+        ctx.count("adjust:obs_lacks_fcst_dim")
+    if any(flagged) and any(d > 0 and not f for d, f in zip(decs, flagged)):
+        ctx.count("adjust:tolerated_dip_next_to_flagged")
+    if impl[0] == "err" or tol < 0:
+        if not (impl[0] == "err" and tol < 0 and impl[1] == "err:ValueError"):
+            ctx.violation("adjust_fcst_for_crps raises / does not raise ValueError exactly for a negative decreasing_tolerance", desc,
+                          "err:ValueError" if tol < 0 else "a value", impl[1] if impl[0] == "err" else "a value")
+        else:
+            ctx.count("adjust:error_path")
+        if m is not NoModel and not (core.is_err(m) and impl[0] == "err" and impl[1] == m):
+            ctx.tie_fail("adjust_fcst_for_crps raises / returns differently from the model", desc, str(impl[1])[:200], str(m)[:200])
         return
     _, _, got = lines_of(impl[1], sizes)
     near_tie = [False] * len(labs)
@@ -766,6 +944,61 @@ def probes(ctx):
     for ffm, im in [("linear", "trapz"), ("step", "exact"), ("forward", "trapz"), ("backward", "exact")]:
         check_adjust(ctx, given=(da, {"a": len(lines)}, ths, ob, 0.0, dense, ffm, im))
         ctx.count("probe:adjust_dense_additional_thresholds")
+    # a positive tolerance with, in ONE array, CDFs whose dip exceeds it (flagged: replaced by the worst candidate) and CDFs whose dip stays
+    # within it (must come back unchanged although their upper / lower envelope has a larger CRPS)
+    mixed = [[0, .5, .375, 1], [0, .75, .25, 1], [.25, .125, .5, 1], [0, .5, 1, .25], [0, .25, .5, 1], [0, 1, .875, .875]]
+    for tol in (0.125, 0.25):
+        for ov in (0.5, 1.0, 1.25, 2.0, 2.75):
+            da = arr(mixed, ths)
+            ob = xr.DataArray([ov] * len(mixed), dims=["a"], coords={"a": list(range(len(mixed)))})
+            for ffm, im in (("linear", "exact"), ("linear", "trapz")):
+                check_adjust(ctx, given=(da, {"a": len(mixed)}, ths, ob, tol, None, ffm, im))
+                ctx.count("probe:adjust_tolerated_next_to_flagged")
+    # forecast dimensions the observation lacks (several lead times / members verified against one observation): the candidate is chosen
+    # per forecast CASE, not per observation.  Lines whose worst candidate differs (dip below the observation -> upper envelope is worst,
+    # dip above it -> lower envelope is worst, non-decreasing, dip at both ends) share one observation.
+    ths7 = [0, 2, 4, 6, 8, 10, 12]
+    pool = [[0.0, 0.5, 0.125, 0.5, 0.625, 0.875, 1.0], [0.0, 0.125, 0.375, 0.625, 0.875, 0.75, 1.0], [0.0, 0.125, 0.25, 0.5, 0.75, 0.875, 1.0],
+            [0.25, 0.0, 0.375, 0.5, 1.0, 0.625, 1.0]]
+    cube = np.array([[pool[(i + j) % 4] for j in range(2)] for i in range(4)], dtype=float)
+    da = xr.DataArray(cube, dims=["a", "b", TD], coords={"a": [0, 1, 2, 3], "b": [0, 1], TD: [t / 2.0 for t in ths7]})
+    for ob in (xr.DataArray([3.0, 2.5], dims=["b"], coords={"b": [0, 1]}), xr.DataArray(3.0), xr.DataArray([3.0, 1.0, 4.5, 2.75], dims=["a"], coords={"a": [0, 1, 2, 3]})):
+        for ffm, im in (("linear", "exact"), ("linear", "trapz"), ("step", "exact")):
+            check_adjust(ctx, given=(da, {"a": 4, "b": 2}, ths7, ob, 0.0, None, ffm, im))
+            ctx.count("probe:adjust_obs_lacks_fcst_dim")
+    # observed_cdf: every combination of include_obs_in_thresholds x precision, with observations that are not multiples of the precision
+    # and thresholds between the raw and the rounded observation (inclusive at the rounded end)
+    for prec, ovals, tvals in ((0.25, [0.875 + 1 / 64, 0.625 - 1 / 64, 2.0, NAN], [0.75, 0.875, 1.0, 0.5, 0.625]),
+                               (0.5, [0.8125, 1.25, 1.75, -0.3125], [0.75, 0.8125, 1.0, 1.5, 2.0, -0.5, -0.25]),
+                               (1, [0.5, 1.5, 2.5, 0.4375], [0, 0.4375, 0.5, 1, 2, 3])):
+        for inc in (True, False):
+            check_observed(ctx, ovals, tvals, inc, prec)
+            check_observed(ctx, ovals, tvals, inc, 0)
+            ctx.count("probe:observed_cdf_options", 2)
+    # arrays that are entirely NaN (single CDF and small batch): every tool returns NaN / leaves them alone, none raises
+    for lines in ([[NAN, NAN, NAN]], [[NAN, NAN, NAN], [NAN, NAN, NAN]]):
+        an = arr(lines, [0, 2, 4])
+        sz = {"a": len(lines)}
+        for method in FILLS:
+            check_fill(ctx, an, sz, [0, 2, 4], method, 2)
+            check_add_thresholds(ctx, given=(an, sz, [0, 2, 4], [0.5, 3.0], method, 2))
+        check_envelope(ctx, an, sz)
+        check_decreasing(ctx, an, sz, [0, 2, 4], 0.0)
+        ob = xr.DataArray([0.5] * len(lines), dims=["a"], coords={"a": list(range(len(lines)))})
+        check_adjust(ctx, given=(an, sz, [0, 2, 4], ob, 0.0, None, "linear", "exact"))
+        # every CDF has one NaN ordinate (the array is all NaN once propagated)
+        part = arr([[0.5, NAN, 0.25]] * len(lines), [0, 2, 4])
+        check_adjust(ctx, given=(part, sz, [0, 2, 4], ob, 0.0, None, "linear", "exact"))
+        ctx.count("probe:all_nan_array")
+    # error paths: fill_cdf with an unknown method name; add_thresholds('linear') with min_nonnan below 2; observed_cdf with nothing to build
+    # thresholds from
+    check_fill(ctx, arr([[0, NAN, 1]], [0, 2, 4]), {"a": 1}, [0, 2, 4], "cubic", 2)
+    check_add_thresholds(ctx, given=(arr([[0, 0.5, 1]], [0, 2, 4]), {"a": 1}, [0, 2, 4], [0.5], "linear", 1))
+    check_add_thresholds(ctx, given=(arr([[0, 0.5, 1], [NAN, 0.25, NAN]], [0, 2, 4]), {"a": 2}, [0, 2, 4], [0.5, 1e6, -1e6], "linear", 2))
+    check_observed(ctx, [NAN, NAN], None, True, 0)
+    check_decreasing(ctx, arr([[0, 0.5, 1]], [0, 2, 4]), {"a": 1}, [0, 2, 4], -0.125)          # negative tolerance
+    check_decreasing(ctx, arr([[0, NAN, 1], [0, 0.5, 1]], [0, 2, 4]), {"a": 2}, [0, 2, 4], 0.0)  # a partly-NaN CDF
+    check_round(ctx, [0.5, 1.25], -1)
     # envelope of CDFs whose decreases all sit across NaN gaps (gap of 1-3 NaN; drop tiny / moderate / full; also leading and trailing NaN
     # and two gaps): together in one array in which no neighbouring pair decreases, each alone (1-D), next to a line with a neighbouring
     # decrease, and with the threshold dimension first
